@@ -67,6 +67,9 @@ type Func struct {
 	Variadic bool
 	Err      bool // has an error result (last, unless ErrAt says otherwise)
 	ErrAt    int  // 1-based output position of the error result; 0 = last
+	// ErrCustom: the error result is declared as the interface type CodedErr
+	// (embeds error) instead of error itself.
+	ErrCustom bool
 	// LocPC: name of a declared pool function whose entry pc is passed to
 	// dig.LocationForPC when this function is provided (the location dig
 	// reports is then that function's; its identity must not change).
@@ -264,6 +267,14 @@ type UserErr struct {
 }
 
 func (e *UserErr) Error() string { return fmt.Sprintf("usererr(%s.%d)", e.Fn, e.Exec) }
+func (e *UserErr) Code() int     { return e.Exec }
+
+func (f *Func) errType() reflect.Type {
+	if f.ErrCustom {
+		return tCodedErr
+	}
+	return tErr
+}
 
 // PanicVal is the value a user function panics with; identity matters.
 type PanicVal struct {
@@ -509,7 +520,7 @@ func (f *Func) FuncType() reflect.Type {
 		out = append(out, resultType(r))
 	}
 	if f.Err {
-		out = insertAt(out, f.errIndex(), tErr)
+		out = insertAt(out, f.errIndex(), f.errType())
 	}
 	return reflect.FuncOf(in, out, f.Variadic)
 }
@@ -664,12 +675,12 @@ func (rt *Runtime) Body(f *Func, inst string, ft reflect.Type, args []reflect.Va
 	ev := Event{Kind: EvExit, Fn: inst, Exec: exec, Outcome: beh, Results: toks}
 	if f.Err {
 		if beh == BehOK {
-			out = insertAt(out, f.errIndex(), reflect.Zero(tErr))
+			out = insertAt(out, f.errIndex(), reflect.Zero(f.errType()))
 		} else {
 			ue := &UserErr{Fn: inst, Exec: exec}
 			ev.Err = ue
 			ev.Results = toks
-			e := reflect.New(tErr).Elem()
+			e := reflect.New(f.errType()).Elem()
 			e.Set(reflect.ValueOf(ue))
 			out = insertAt(out, f.errIndex(), e)
 		}
